@@ -661,11 +661,14 @@ class DriverEngine(Engine):
                 vis[-1] = list(nb.args)
             visible = [v for lvl in vis for v in lvl]
             if use_arith and ir.flag(1, 3):
-                if ir.flag(1, 2) or len(consts) < 2:
+                # operands are drawn from the values *visible* at this point only (a use of
+                # a constant nested in a sibling region would be invalid IR: erasing the
+                # enclosing op would then legitimately leave a dangling producer)
+                i32vals = [v for v in visible if v.type == i32]
+                if ir.flag(1, 2) or len(consts) < 2 or not i32vals:
                     op: Operation = arith.ConstantOp(IntegerAttr(ir.choice(4), i32))
                     consts.append(op.results[0])
                 else:
-                    i32vals = [v for v in visible if v.type == i32] or consts
                     a = i32vals[ir.choice(len(i32vals))]
                     b = i32vals[ir.choice(len(i32vals))]
                     op = arith.AddiOp(a, b)
